@@ -298,8 +298,14 @@ def post_eq(ctx, call):
             per.append(_cycle_equal_exact(a.array[pos] if cs else a.array, b.array[pos] if cs else b.array))
         want = all(per)
         if cs and want and got is False:
-            ctx.skip("eq", "collection whose elements need different rotations (one common rotation is used: not judged)")
-            return
+            common = None
+            for pos in R.positions(cs, 64):
+                m = _cycle_matches(a.array[pos], b.array[pos])
+                common = m if common is None else (common & m)
+            if not common:
+                ctx.skip("eq", "collection whose elements need different rotations (one common rotation is used: not judged)")
+                return
+            # one re-ordering (rotation, reversal) maps every element of the collection onto its partner: equal under the library's reading, too
         ctx.judge("eq", got == want, [a, b], what=f"== is {got}, exact comparison of the vertex cycles up to rotation/reversal says {want}", op="Polytope.__eq__",
                   feat={"pdim": pd, "coll": bool(cs), "nvert": int(a.shape[-2])}, nontrivial=True)
     elif pd == 3:
@@ -359,6 +365,20 @@ def _isometry(rng, dim):
         h = np.append(gen.nonzero_vec(rng, dim, 4), int(rng.integers(-5, 6)))
         t = t * g.reflection((g.Line if dim == 2 else g.Plane)(h))
     return t
+
+
+def _cycle_matches(A, B):
+    """The set of (rotation, reversed) under which the vertex arrays describe the same cycle (projectively, exact)."""
+    n = len(A)
+    a = [X.vec(v) for v in A]
+    b = [X.vec(v) for v in B]
+    out = set()
+    for rev in (False, True):
+        bb = b[::-1] if rev else b
+        for r in range(n):
+            if all(X.proj_equal(a[k], bb[(k + r) % n]) for k in range(n)):
+                out.add((r, rev))
+    return out
 
 
 def g_polygons(ctx, rng, i):
@@ -421,6 +441,33 @@ def g_polygons(ctx, rng, i):
             pc2 = _try(g.PolygonCollection, np.stack([np.array(_variant(H, 1)), np.array([np.append(v, 1) for v in V2])[[1, 2, 3, 0]]]))
             if pc2 is not None:
                 _try(lambda: pc == pc2)
+    # collections compared with the same polygons written with another start vertex / in the other orientation, and with the members in another order
+    V2 = [v + (np.array([9, 1]) if dim == 2 else np.array([9, 1, 2])) for v in V]
+    V3 = [2 * v - (np.array([3, 20]) if dim == 2 else np.array([3, 20, 1])) for v in V]
+    members = [np.array(H), np.array([np.append(v, 1) for v in V2]), np.array([np.append(v, 1) for v in V3])][: 2 + i % 2]
+    pc = _try(g.PolygonCollection, np.stack(members))
+    if pc is not None:
+        for k in (rng.choice(2 * n, size=3, replace=False) if n > 2 else range(2 * n)):
+            idx = [j % n for j in _variant(list(range(n)), int(k))]
+            other = _try(g.PolygonCollection, np.stack([m[idx] * gen.pick(rng, [1, -2]) for m in members]))
+            if other is not None:
+                _try(lambda: pc == other)
+                _try(lambda: other == pc)
+        # the same members in reverse order: a different collection
+        _try(lambda: pc == g.PolygonCollection(np.stack(members[::-1])))
+        _try(lambda: pc == g.PolygonCollection(np.stack([np.flip(m, axis=0) for m in members[::-1]])))
+        # two collection axes
+        pc22 = _try(g.PolygonCollection, np.stack([np.stack(members[:2]), np.stack(members[:2][::-1])]))
+        if pc22 is not None:
+            _try(lambda: pc22 == g.PolygonCollection(np.flip(pc22.array, axis=-2)))
+            _try(lambda: pc22 == g.PolygonCollection(np.flip(pc22.array, axis=0)))
+    # segment collections: the same segments with their end points swapped / listed in the opposite order
+    sa = np.stack([np.array(H[:2]), np.array([np.append(v, 1) for v in V2[:2]]), np.array([np.append(v, 1) for v in V3[:2]])])
+    sc = _try(g.SegmentCollection, sa)
+    if sc is not None:
+        _try(lambda: sc == g.SegmentCollection(np.flip(sa, axis=-2)))
+        _try(lambda: sc == g.SegmentCollection(sa[::-1]))
+        _try(lambda: sc == g.SegmentCollection(-2 * sa))
 
 
 def g_simplices(ctx, rng, i):
